@@ -945,6 +945,16 @@ def fold_sum(vals):
     approx = any(x.approx for x in vals)
     lv, rv = left.v, right.v
     same = (lv == rv and math.copysign(1, lv) == math.copysign(1, rv)) or (lv != lv and rv != rv)
+    if same and lv == lv and lv not in (math.inf, -math.inf):
+        # an implementation may add more accurately than pairwise IEEE additions (compensated sums)
+        try:
+            fs = math.fsum(x.v for x in vals)
+            if t == 'float':
+                fs = f32(fs)
+            if fs != lv:
+                approx = True
+        except (OverflowError, ValueError):
+            approx = True
     if not same:
         if (lv != lv) != (rv != rv) or lv in (math.inf, -math.inf) or rv in (math.inf, -math.inf):
             raise Undecided('floating point sum depends on the order of additions (overflow)')
@@ -1309,7 +1319,8 @@ def substitute(node, env, focus):
         if a is None or b is None:
             return None
         return [k, a, b]
-    out = []
+    if k in ('lit', 'nodes'):
+        return node
     head = 2 if k in ('call', 'arith', 'vcmp', 'gcmp') else 1
     out = list(node[:head])
     for sub in node[head:]:
